@@ -10,9 +10,13 @@ META = {
             "every ClientHello extension): for every well-formed hello that fits one record, any extension list, any "
             "trailing stream and any segmentation the reported name and ALPN list are exactly the hello's; for every "
             "byte stream the result is segmentation-independent, at most the buffer size is pulled, no panic, and the "
-            "following Reads return the stream from byte 0 in order and completely. The peek-buffer size and header "
-            "constants are regenerated from tls_hello_conn.go on every run and the function bodies are compared with "
-            "the frozen ones; the model is tied to the real code (and to crypto/tls) by differential runs evaluated in Coq.",
+            "following Reads return the stream from byte 0 in order and completely - the hand-over from the peek buffer to "
+            "the connection is a first-class part of the model: TLSHelloConn.Read is emitted as a policy (always through "
+            "the bufio.Reader / straight to the connection once the buffer is drained / anything else unknown), proved "
+            "transparent for every sequence of caller buffer sizes with any amount of data buffered behind the hello, "
+            "and handing over by byte count is refuted. The peek-buffer size and header "
+            "constants are regenerated from tls_hello_conn.go on every run and the other function bodies are compared "
+            "with the frozen ones; the model is tied to the real code (and to crypto/tls) by differential runs evaluated in Coq.",
     "note": "Trusted: Coq kernel + vm_compute; translator gen/sni_stream.go; harness c14 and its scripted net.Conn; the "
             "model of crypto/tls go1.23 ClientHello unmarshalling and of bufio.Reader is hand-written and exercised by "
             "the correspondence streams (real crypto/tls client hellos, synthetic, mutated, non-TLS), not verified code; "
@@ -290,7 +294,10 @@ def run(ck):
         rule="seeded generation (splitmix64): crypto/tls client hellos over random configs (names, 0..40 ALPN protocols, "
              "TLS 1.0-1.3, tickets, resumption), synthetic hellos padded to size classes around 4091/4096/8192/16384 and "
              "beyond, record versions 0x0300..0x0fff and >= 0x1000, hellos fragmented over two or three records, "
-             "rule-breaking synthetic hellos, byte-level mutations, non-TLS and SSLv2-style inputs; each with a random "
+             "rule-breaking synthetic hellos, byte-level mutations, non-TLS and SSLv2-style inputs; handover = a hello "
+             "(minimal, 300..16384-byte payloads) with 1..20000 bytes behind it, all in one segment / cut at hello+1 / cut "
+             "exactly behind the hello / header alone, read with caller buffers from 1 to 32768 bytes (constant, 'ends at "
+             "the hello then another size', random sequences; fixed minimal cases first); each with a random "
              "segmentation, random read sizes and (1 in 4) a connection that reports io.EOF together with its last bytes; corpus of the failing hellos first; a case is non-trivial unless the "
              "stream is empty; distinct = distinct (stream, description, length, segmentation, read sizes, intended info)",
         assumptions=["go1.23 crypto/tls semantics for the first record (GOTOOLCHAIN=local)"])
